@@ -283,3 +283,165 @@ pub fn swap_variable(s: &S, ch: &mut Ch) -> Option<S> {
     let mut k = *site;
     Some(map_nth(s, &mut k, &mut |_| S::Var(new.clone())))
 }
+
+/// Indices, in `map_nth`'s pre-order, of the groups with two or more definitions.
+pub fn multi_def_groups(s: &S) -> Vec<usize> {
+    fn go(s: &S, idx: &mut usize, out: &mut Vec<usize>) {
+        if let S::Let { defs, .. } = s {
+            if defs.len() >= 2 {
+                out.push(*idx);
+            }
+        }
+        *idx += 1;
+        match s {
+            S::Lam { ann, body, .. } => {
+                if let Some(a) = ann {
+                    go(a, idx, out);
+                }
+                go(body, idx, out);
+            }
+            S::Pi { dom, cod, .. } => {
+                go(dom, idx, out);
+                go(cod, idx, out);
+            }
+            S::App(a, b) | S::Bin(_, a, b) => {
+                go(a, idx, out);
+                go(b, idx, out);
+            }
+            S::Neg(a) | S::Paren(a) => go(a, idx, out),
+            S::If(a, b, c) => {
+                go(a, idx, out);
+                go(b, idx, out);
+                go(c, idx, out);
+            }
+            S::Let { defs, body } => {
+                for d in defs {
+                    if let Some(a) = &d.ann {
+                        go(a, idx, out);
+                    }
+                    go(&d.def, idx, out);
+                }
+                go(body, idx, out);
+            }
+            _ => {}
+        }
+    }
+    let mut out = vec![];
+    go(s, &mut 0, &mut out);
+    out
+}
+
+
+/// Put (possibly doubled) parentheses around the *tail* of a group of two or more definitions:
+/// `x = a; y = b; body` becomes `x = a; (y = b; body)`. A group is one node of `S`, so `map_nth`
+/// cannot do this. None if the term has no such group.
+pub fn paren_group_tail(s: &S, ch: &mut Ch) -> Option<S> {
+    let sites = multi_def_groups(s);
+    if sites.is_empty() {
+        return None;
+    }
+    let mut k = sites[ch.pick(sites.len())];
+    let cut = ch.pick(64);
+    let depth = 1 + ch.pick(2);
+    Some(map_nth(s, &mut k, &mut |x| match x {
+        S::Let { defs, body } if defs.len() >= 2 => {
+            let i = 1 + cut * (defs.len() - 1) / 64;
+            let mut tail = S::Let { defs: defs[i..].to_vec(), body: body.clone() };
+            for _ in 0..depth {
+                tail = S::Paren(Box::new(tail));
+            }
+            S::Let { defs: defs[..i].to_vec(), body: Box::new(tail) }
+        }
+        other => other.clone(),
+    }))
+}
+
+/// A group made one definition longer or shorter such that the body keeps its de Bruijn shape:
+/// `a = type; a` becomes `a = type; b = int; b` (the body names the new last definition), or an
+/// unused definition is appended / the unused last definition is dropped. The two programs differ
+/// in meaning or at least in the length of a group. None if the term has no group.
+pub fn group_length_variant(s: &S, ch: &mut Ch) -> Option<S> {
+    fn groups(s: &S, idx: &mut usize, out: &mut Vec<usize>) {
+        if matches!(s, S::Let { .. }) {
+            out.push(*idx);
+        }
+        *idx += 1;
+        match s {
+            S::Lam { ann, body, .. } => {
+                if let Some(a) = ann {
+                    groups(a, idx, out);
+                }
+                groups(body, idx, out);
+            }
+            S::Pi { dom, cod, .. } => {
+                groups(dom, idx, out);
+                groups(cod, idx, out);
+            }
+            S::App(a, b) | S::Bin(_, a, b) => {
+                groups(a, idx, out);
+                groups(b, idx, out);
+            }
+            S::Neg(a) | S::Paren(a) => groups(a, idx, out),
+            S::If(a, b, c) => {
+                groups(a, idx, out);
+                groups(b, idx, out);
+                groups(c, idx, out);
+            }
+            S::Let { defs, body } => {
+                for d in defs {
+                    if let Some(a) = &d.ann {
+                        groups(a, idx, out);
+                    }
+                    groups(&d.def, idx, out);
+                }
+                groups(body, idx, out);
+            }
+            _ => {}
+        }
+    }
+    fn mentions(s: &S, name: &str) -> bool {
+        match s {
+            S::Var(n) => n == name,
+            S::Lam { ann, body, .. } => ann.as_ref().is_some_and(|a| mentions(a, name)) || mentions(body, name),
+            S::Pi { dom, cod, .. } => mentions(dom, name) || mentions(cod, name),
+            S::App(a, b) | S::Bin(_, a, b) => mentions(a, name) || mentions(b, name),
+            S::Neg(a) | S::Paren(a) => mentions(a, name),
+            S::If(a, b, c) => mentions(a, name) || mentions(b, name) || mentions(c, name),
+            S::Let { defs, body } => defs.iter().any(|d| d.ann.as_ref().is_some_and(|a| mentions(a, name)) || mentions(&d.def, name)) || mentions(body, name),
+            _ => false,
+        }
+    }
+    let mut sites = vec![];
+    groups(s, &mut 0, &mut sites);
+    if sites.is_empty() {
+        return None;
+    }
+    let mut k = sites[ch.pick(sites.len())];
+    let how = ch.pick(3);
+    let what = ch.pick(5);
+    let annotated = ch.chance(1, 2);
+    Some(map_nth(s, &mut k, &mut |x| match x {
+        S::Let { defs, body } => {
+            let Some(last) = defs.last() else { return body.as_ref().clone() };
+            let others_mention_last = defs.iter().any(|d| d.ann.as_ref().is_some_and(|a| mentions(a, &last.name)) || mentions(&d.def, &last.name));
+            if how == 0 && defs.len() >= 2 && !others_mention_last && !mentions(body, &last.name) {
+                return S::Let { defs: defs[..defs.len() - 1].to_vec(), body: body.clone() };
+            }
+            let fresh = "zq9_".to_owned();
+            let (ann, def) = match what {
+                0 => (S::Type, S::Int),
+                1 => (S::Type, S::Bool),
+                2 => (S::Int, sast::lit(0)),
+                3 => (S::Bool, S::True),
+                _ => (S::Type, sast::arrow(S::Int, S::Int)),
+            };
+            let mut defs2 = defs.clone();
+            defs2.push(Def { name: fresh.clone(), ann: if annotated { Some(ann) } else { None }, def });
+            // The body names the last definition: let it name the new last definition instead,
+            // so that its index stays the same.
+            let body2 = if matches!(body.strip(), S::Var(n) if *n == last.name) && how != 1 { Box::new(sast::var(&fresh)) } else { body.clone() };
+            S::Let { defs: defs2, body: body2 }
+        }
+        other => other.clone(),
+    }))
+}
